@@ -180,6 +180,21 @@ def step (s : DState) (line : String) : DState × Option String :=
       let (w, o) := clean s.ora s.w (srt = "1") run count
       ({ s with w := w }, some (outStr "clean" o))
     | _, _ => bad s line
+  | ["pdiff", e, r, name, line] =>
+    match unhex e, unhex r, unhex name, line.toNat? with
+    | some e, some r, some name, some line =>
+      (s, some (outStr "pdiff" { stdout := prettyDiff e r name line }))
+    | _, _, _, _ => bad s line
+  | ["dl", a, b] =>
+    let sq := fun (x : String) => if x = "-" then [] else x.toList
+    let showG := fun (gs : List (List Difflib.OpCode)) =>
+      ";".intercalate (gs.map fun g => ",".intercalate (g.map fun c => s!"{c.tag}:{c.i1}:{c.i2}:{c.j1}:{c.j2}"))
+    (s, some ("dl full=" ++ showG (Difflib.getGroupedOpCodes (sq a) (sq b) 1048576) ++
+              " groups=" ++ showG (Difflib.getGroupedOpCodes (sq a) (sq b) 3)))
+  | ["range", a, b] =>
+    match a.toNat?, b.toNat? with
+    | some a, some b => (s, some ("range " ++ Difflib.formatRangeUnified a b))
+    | _, _ => bad s line
   | ["fsput", p, c] =>
     match unhex p, unhex c with
     | some p, some c => ({ s with w := { s.w with fs := fsWrite s.w.fs p c } }, some "fsput ok")
